@@ -153,11 +153,11 @@ CLAIMS = {
     'C17': dict(
         engine='A-crosshair',
         technique='bounded symbolic execution of the real code (CrossHair + z3) for the core APIs; solver-enumerated bounded families (realise-then-untrace) for the text pipelines',
-        text=('For each of 52 call forms (fdl.build; repr / str; as_str_flattened both modes, as_dict_flattened, '
-              'history_per_leaf_parameter; graphviz render / render_diff; dump_json, Serialization, dump_yaml; build_diff '
+        text=('For each of 56 call forms (fdl.build; repr / str; as_str_flattened both modes, as_dict_flattened, '
+              'history_per_leaf_parameter; graphviz render (also with max_depth / max_str_length) / render_diff; dump_json, Serialization, dump_yaml; build_diff '
               'as old and as new, skeleton_from_diff; check_types, get_type_errors, get_config_errors, '
               'check_baseline_style; new_codegen, auto_config_codegen, legacy codegen; select iteration / get / tag '
-              'iteration; debug.grep; cast, copy_with (plain and TaggedValue), deepcopy_with, copy, deepcopy; '
+              'iteration; debug.grep; cast (also to the same type, followed by edits of the result), copy_with (plain and TaggedValue), deepcopy_with, copy, deepcopy; '
               'materialize_tags in three forms, list_tags; clear_argument_history; trimmed, with_defaults_trimmed both '
               'flags, depth_over, structure, trim_fields_to, trim_long_fields; unintern_tuples_of_literals, '
               'replace_unconfigured_partials_with_callables; daglish.iterate, identity rebuild; ==; ordered_arguments; '
